@@ -221,13 +221,12 @@ inductive ErrKind where
   | handshake   -- "failed to open plugin %q: handshake with plugin %q failed: …"
   | generate    -- "plugin %q failed to generate service code: …"
   | dotdot      -- "plugin %q is attempting to write to a parent directory …"
-  | goodbye     -- the bare error of the goodbye call (does not mention the plugin)
+  | goodbye     -- "failed to say goodbye to plugin %q: …"
   | exitStatus  -- "%q failed with: exit status n" (the executable's path)
   deriving DecidableEq, Repr
 
 /-- does the message carry the plugin's name? -/
 def ErrKind.names : ErrKind → Bool
-  | .goodbye => false
   | _ => true
 
 /-- per-plugin bookkeeping of a run. -/
@@ -359,7 +358,7 @@ def flagsOf (c : Cfg) : Flags :=
 
 /-- the files the plugins contributed, in completion order, merged as multi.go does. -/
 def mergedPluginFiles (recs : List Rec) (ord : List Nat) : Option Files :=
-  mergePlugins [] ((pickOrder recs ord).filterMap (·.files))
+  mergePlugins [] (((pickOrder recs ord).filterMap (·.files)).map normFiles)
 
 def run (c : Cfg) : Result :=
   let g := flagsOf c
